@@ -16,6 +16,14 @@ ASSUMPTIONS = ["bits: to_bits(n) -> from_bits -> val() on the real code for widt
                "values mod-1, mod, mod+1, 0, 2^n-1, random: run-time accept/reject = (value < mod for every field); with error checking off the "
                "emitted system with the bit wires fixed is satisfiable iff that relation holds (exhaustive over p = 97; recorded witness on the "
                "large fields); model-compared (result, wire expression, constraints) through the K|..|U line of Driver/ProtoStruct.lean"]
+ASSUMPTIONS += ["bit vectors that MIX secret bits with plain 0/1 constants: (i) programs `bits = x.to_bits(n)`, some positions replaced by "
+                "the literals 0/1 (none, one, several, all; a constant 1 in the lowest / highest place), a secret bit used twice, the "
+                "vector shortened or extended by constants, then LinComb.from_bits and val(): the recomposed value is the plain sum, its "
+                "wire expression evaluates to it on the recorded witness (INCOH), every recorded constraint holds (UNSAT), and the whole "
+                "program is model-compared at V+S; (ii) packer schemas whose leaves are plain or secret independently (mode `mixed`, the "
+                "pattern LinComb.from_bits(schema.pack([plain, secret])) of examples/secretsanta.py): pack/unpack model-compared as in "
+                "the other modes, and for EVERY mode from_bits of the packing is compared with the all-plain packing number, on the "
+                "witness, followed by val()"]
 PARTIAL = ["secret round trip: proved/validated at value level for bounded-integer leaves; PackBool on the boolean type is the identity "
            "(C16_pack_bool_lcb; was finding C16-pack-bool, repaired); PackIntMod.unpack performs no range check on the bits produced by pack (finding C16-unpack-unchecked)"]
 LEVELS = "VS"
@@ -54,6 +62,47 @@ def bits_twice_case(rnd, cid):
         v = (1 << w1) - 1; ins[0] = progs.lit_int(v)
     ins += [progs.lit_int(n2), "call to_bits r1 r4", "call from_bits r5", "call val r6"]
     return progs.Case(cid, cfg, ins, {"shape": "bits-twice", "op": first, "kinds": "L", "abc": (v, n2, 0), "width": n2})
+
+
+MIX_SCENARIOS = ["one-const-1", "one-const-0", "high-const-1", "low-const-1", "several", "all-const", "none", "reuse-bit", "extend", "shorten"]
+
+
+def mixed_bits_case(rnd, cid, k=None):
+    """`bits = x.to_bits(n)`, positions overwritten by the plain constants 0/1, then from_bits and val()"""
+    bl = rnd.choice([4, 8, 16, 32])
+    n = rnd.choice([1, 2, 3, 4, bl - 1, bl, min(bl + 2, 12)])
+    v = rnd.choice([0, 1, (1 << n) - 1, (1 << n) // 2, rnd.randrange(0, 1 << n), rnd.randrange(0, 1 << n)])
+    sc = MIX_SCENARIOS[k % len(MIX_SCENARIOS)] if k is not None else rnd.choice(MIX_SCENARIOS)
+    cfg = {"p": rnd.choice([common.BN128, common.BN128, common.BLS381]), "bl": bl, "res": 0, "ign": 0}
+    ins = [progs.lit_int(v), "mk priv r0", progs.lit_int(n), "call to_bits r1 r2"]      # r3 = the n bits
+    pos = list(range(n))
+    if sc == "shorten" and n > 1: pos = pos[:rnd.randrange(1, n)]
+    const = {}
+    if sc == "one-const-1": const = {rnd.choice(pos): 1}
+    elif sc == "one-const-0": const = {rnd.choice(pos): 0}
+    elif sc == "high-const-1": const = {pos[-1]: 1}
+    elif sc == "low-const-1": const = {pos[0]: 1}
+    elif sc == "several": const = {i: rnd.choice([0, 1, 1]) for i in rnd.sample(pos, rnd.randrange(1, len(pos) + 1))}
+    elif sc == "all-const": const = {i: rnd.choice([0, 1]) for i in pos}
+    src = {i: i for i in pos}                       # which secret bit sits at place i
+    if sc == "reuse-bit" and len(pos) > 1:
+        a, b = rnd.sample(pos, 2); src[a] = b
+    items = []; expect = 0
+    for place, i in enumerate(pos):
+        if i in const:
+            ins.append(progs.lit_int(const[i])); bit = const[i]
+        else:
+            ins.append(f"idx r3 {src[i]}"); bit = (v >> src[i]) & 1
+        items.append(f"r{len(ins) - 1}"); expect += bit << place
+    if sc == "extend":
+        for _ in range(rnd.randrange(1, 4)):
+            b = rnd.choice([0, 1, 1]); ins.append(progs.lit_int(b)); items.append(f"r{len(ins) - 1}"); expect += b << (len(items) - 1)
+    ins.append("list " + " ".join(items)); lreg = len(ins) - 1
+    ins.append(f"call from_bits r{lreg}")
+    allconst = all(i in const for i in pos)           # then from_bits returns a plain int: nothing to open
+    ins.append("lit n" if allconst else f"call val r{lreg + 1}")
+    return progs.Case(cid, cfg, ins, {"shape": "bits-mixed", "op": "from_bits", "kinds": "L", "abc": (v, n, 0), "width": n, "mix": sc,
+                                      "expect": expect, "fb": lreg + 1, "nconst": len(const) + (len(items) - len(pos))})
 
 
 def gen_schema(rnd, depth=0):
@@ -100,6 +149,21 @@ def value_str(s, v, mode):
     return "[" + ",".join(value_str(s[1], y, mode) for y in v) + "]"
 
 
+def leaves_of(s, v):
+    if s[0] in ("B", "M"): return [(s, v)]
+    if s[0] == "L": return [l for x, y in zip(s[1], v) for l in leaves_of(x, y)]
+    return [l for y in v for l in leaves_of(s[1], y)]
+
+
+def value_str_mixed(s, v, mask):
+    """model value string with plain / secret chosen per leaf (`mask`: iterator over 0 = plain, 1 = secret integer)"""
+    if s[0] in ("B", "M"):
+        return f"L:{v}" if next(mask) else f"i:{v}"
+    if s[0] == "L":
+        return "[" + ",".join(value_str_mixed(x, y, mask) for x, y in zip(s[1], v)) + "]"
+    return "[" + ",".join(value_str_mixed(s[1], y, mask) for y in v) + "]"
+
+
 def plain_of_valstr(t):
     """model register string -> nested plain ints"""
     from .. import ref
@@ -129,6 +193,34 @@ def explore(ctx, extended=False, focus=None):
                "distinct = distinct (schema, value, mode) / (width, value, bitlength)")
     n = ctx.n(750, 18000) * (2 if extended else 1)
     cases = corpus_cases("C16") + [bits_case(ctx.rnd, f"c16_{i}", small=False) for i in range(n)]
+    mixed = [mixed_bits_case(ctx.rnd, f"c16m_{i}", i if i < 3 * len(MIX_SCENARIOS) else None) for i in range(max(60, n // 3))]
+    for r in execute_all(mixed):
+        account(ex, r); correspond(ex, r, LEVELS)
+        m = r.case.meta
+        ex.count("bits-mixed:" + m["mix"])
+        ex.distinct.add(("bits-mixed", m["mix"], m["width"], m["abc"][0], m["expect"], r.case.cfg["bl"]))
+        sig = {"op": "from_bits", "history": "secret-bits-mixed-with-plain-constants", "mix": m["mix"]}
+        rp = {"case": r.case.line(), "expected_value": m["expect"]}
+        if not r.ok:
+            ex.violations.append(Violation(dict(sig, dev="raises", error=r.errcls),
+                                           f"from_bits of {m['width']} bits of {m['abc'][0]} with {m['nconst']} plain constant(s) ({m['mix']}): "
+                                           f"{r.errcls} at instruction {r.errpos}", rp))
+            continue
+        fb = r.regs[m["fb"]]
+        got = fb.split(":")[1] if fb[:2] in ("L:", "I:") else None
+        if got != str(m["expect"]):
+            ex.violations.append(Violation(dict(sig, dev="round-trip"),
+                                           f"from_bits of secret bits mixed with plain constants ({m['mix']}) gives {fb[:60]}, the bits spell {m['expect']}", rp))
+        if r.incoh:
+            i = r.incoh[0]
+            ex.violations.append(Violation(dict(sig, dev="recomposed-wire-expression-off-the-witness"),
+                                           f"from_bits of secret bits mixed with plain constants ({m['mix']}, {m['nconst']} constant(s)): register r{i} = "
+                                           f"{r.regs[i][:80]} has value {m['expect'] if i == m['fb'] else '?'} but its wire expression evaluates to "
+                                           f"something else on the recorded witness", rp))
+        if r.unsat:
+            ex.violations.append(Violation(dict(sig, dev="unsatisfied"),
+                                           f"after from_bits of a mixed bit vector ({m['mix']}) and val(), recorded constraint #{r.unsat[0]} does not "
+                                           f"hold on the recorded witness", rp))
     twice = [bits_twice_case(ctx.rnd, f"c16t_{i}") for i in range(n // 2)]
     for r in execute_all(twice):
         account(ex, r); correspond(ex, r, LEVELS)
@@ -181,13 +273,20 @@ def explore(ctx, extended=False, focus=None):
     jobs = []
     for i in range(ctx.n(900, 18000)):
         s = gen_schema(ctx.rnd)
-        mode = ctx.rnd.choice(["plain", "plain", "plain-bad", "secret:int", "secret:int", "secret:bool"])
+        mode = ctx.rnd.choice(["plain", "plain", "plain-bad", "secret:int", "secret:int", "secret:bool", "mixed", "mixed"])
         bad = mode == "plain-bad" and has(s, '"M"')
         val = gen_value(ctx.rnd, s, bad)
         jobs.append({"schema": s, "value": val, "mode": "plain" if mode.startswith("plain") else mode, "bad": out_of_range(s, val)})
+        if mode == "mixed":
+            # every leaf plain or secret on its own; at least one of each when there are two leaves
+            nl = len(leaves_of(s, val))
+            mask = [ctx.rnd.choice([0, 1]) for _ in range(nl)]
+            if nl >= 2 and len(set(mask)) == 1: mask[ctx.rnd.randrange(nl)] ^= 1
+            jobs[-1]["mask"] = mask
     bls = [ctx.rnd.choice([8, 16, 32]) for _ in jobs]
     outs = common.run_workers([f"K|k{i}|{bl}|{json.dumps(j)}" for i, (j, bl) in enumerate(zip(jobs, bls))], script="worker_pack.py")
-    mlines = common.lean_driver([f"K|k{i}|{bl}|{schema_str(j['schema'])}|{value_str(j['schema'], j['value'], j['mode'])}"
+    mlines = common.lean_driver([f"K|k{i}|{bl}|{schema_str(j['schema'])}|" +
+                                 (value_str_mixed(j['schema'], j['value'], iter(j['mask'])) if j['mode'] == 'mixed' else value_str(j['schema'], j['value'], j['mode']))
                                  for i, (j, bl) in enumerate(zip(jobs, bls))])
     for j, o, m in zip(jobs, outs, mlines):
         # model correspondence: status class, bit length, bit values, unpacked values, number of constraints
@@ -233,6 +332,25 @@ def explore(ctx, extended=False, focus=None):
             ex.violations.append(Violation(dict(sig, dev="round-trip"), f"unpack(pack({j['value']})) = {d['back']}", rep))
         if d.get("unsat"):
             ex.violations.append(Violation(dict(sig, dev="unsatisfied"), "a constraint emitted while packing is not satisfied", rep))
+        # from_bits of the packing (examples/secretsanta.py: LinComb.from_bits(schema.pack([...]))) = the all-plain packing number
+        fb = d.get("fb")
+        if fb is not None:
+            want = sum(b << i for i, b in enumerate(d["bits"]))
+            mixk = "all-plain" if not fb.get("nsecret") else "all-secret" if fb["nsecret"] == d["nbits"] else "secret-and-plain-bits"
+            ex.count("from-bits-of-packing:" + mixk)
+            fsig = dict(sig, op="from_bits-of-packing", bits=mixk)
+            if "error" in fb:
+                ex.violations.append(Violation(dict(fsig, dev="raises", error=fb["error"]), f"from_bits(pack(x)) raises {fb['error']} ({mixk})", rep))
+            else:
+                if fb["value"] != want:
+                    ex.violations.append(Violation(dict(fsig, dev="round-trip"), f"from_bits(pack(x)) = {fb['value']}, the packed bits spell {want} ({mixk})", rep))
+                if not fb["coherent"]:
+                    ex.violations.append(Violation(dict(fsig, dev="recomposed-wire-expression-off-the-witness"),
+                                                   f"from_bits(pack(x)) with {fb['nsecret']} secret and {d['nbits'] - fb['nsecret']} plain bits ({sum(d['bits'][i] for i in fb['plain_at'])} "
+                                                   f"of them 1): value {fb['value']}, but its wire expression evaluates to {fb['lc_on_witness']} on the recorded witness", rep))
+                if fb.get("unsat_after_val"):
+                    ex.violations.append(Violation(dict(fsig, dev="unsatisfied"),
+                                                   f"from_bits(pack(x)).val() ({mixk}): recorded constraint #{fb['unsat_after_val'][0]} does not hold on the witness", rep))
         if len(ex.samples) < 5:
             ex.samples.append(j)
     return ex
